@@ -501,10 +501,12 @@ class Block:
         for f in self.crossings[0]:
             if isinstance(f, DerivedFactor) and not f.has_complex_window and f in di:
                 l = cast(DerivedLevel, di[f])
-                if all([df in di for df in l.window.factors]):
-                    args = [di[df].name for df in l.window.factors]
-                    if not l.window.predicate(*args):
-                        return True
+                # A source factor that is not part of the combination can take any
+                # of its levels (as in counting the crossing's exclusions).
+                argss = [[di[df].name] if df in di else [ll.name for ll in df.levels]
+                         for df in l.window.factors]
+                if not any(l.window.predicate(*args) for args in product(*argss)):
+                    return True
         return False
 
     def build_backend_request(self) -> BackendRequest:
